@@ -89,6 +89,11 @@ PROPS["C02"] = dict(level="exploration", race=False, tiers={
     "thorough": [dict(variant="", runs=60000, budget_s=3300)],
 })
 
+PROPS["C12"] = dict(level="exploration", race=True, tiers={
+    "quick": [dict(variant="", runs=300, budget_s=50)],
+    "thorough": [dict(variant="", runs=40000, budget_s=3300)],
+})
+
 RULES = {}
 ASSUME = {}
 
@@ -121,7 +126,7 @@ def tree_digest(path):
     return h.hexdigest()[:16]
 
 
-def prepare(scratch, race=False, overlay=True):
+def prepare(scratch, race=False, overlay=True, mkconfig=True):
     """Copy the tree under test, instrument the copy, build the worker binary."""
     t0 = time.time()
     instr = ensure_tools()
@@ -164,7 +169,17 @@ def prepare(scratch, race=False, overlay=True):
         used_overlay = False
     if p.returncode != 0:
         raise Infra("harness build failed:\n" + p.stdout[-4000:])
-    return dict(bin=binp, meta=json.load(open(meta)), overlay=used_overlay, build_s=time.time() - t0)
+    built = dict(bin=binp, meta=json.load(open(meta)), overlay=used_overlay, build_s=time.time() - t0)
+    if mkconfig:
+        # the library's own NewIPASettings, once per check instead of once per worker
+        cc = os.path.join(scratch, "config.bin")
+        if os.path.exists(cc):
+            os.remove(cc)
+        w, out = one_shot(binp, dict(prop="", mode="mkconfig", config_cache=cc), scratch, "mkconfig", 1800, race=race)
+        if not (out and out.get("ok")) or not os.path.exists(cc):
+            log("config cache not built (workers will build their own): %s" % (out,))
+        built["mkconfig_s"] = time.time() - t0 - built["build_s"]
+    return built
 
 
 # ---------------------------------------------------------------------------
@@ -173,6 +188,9 @@ def prepare(scratch, race=False, overlay=True):
 def spawn(binp, job, scratch, tag, race=False, gomaxprocs=None):
     jobp = os.path.join(scratch, "job-%s.json" % tag)
     job = dict(job)
+    cc = os.path.join(scratch, "config.bin")
+    if os.path.exists(cc) and job.get("mode") != "mkconfig":
+        job["config_cache"] = cc
     job["out"] = os.path.join(scratch, "out-%s.json" % tag)
     for stale in (job["out"], job["out"] + ".current"):
         if os.path.exists(stale):
@@ -296,13 +314,23 @@ def check(pid, tier, seed):
                         agg["infra"].append("worker %s died before its first run (rc=%s):\n%s" % (w["tag"], w["rc"], tail))
                         continue
                     job = dict(w["job"], only_run=cur, budget_s=0)
-                    w2, out2 = one_shot(built["bin"], job, scratch, w["tag"] + "-rerun", 1200, race=race)
-                    tail2 = open(w2["log"]).read()[-6000:]
-                    if out2 is None or w2["rc"] != 0:
-                        # reproducible death of the process on this plan: a violation (runtime fatal error / race report)
-                        cls = "data-race" if "DATA RACE" in tail2 else "process-death"
+                    raced = "DATA RACE" in tail
+                    reproduced, tail2, out2 = False, "", None
+                    for attempt in range(3 if raced else 1):
+                        w2, out2 = one_shot(built["bin"], job, scratch, w["tag"] + "-rerun", 1200, race=race)
+                        tail2 = open(w2["log"]).read()[-6000:]
+                        if out2 is None or w2["rc"] != 0:
+                            reproduced = True
+                            break
+                    if reproduced or raced:
+                        # a reproducible death of the process on this plan (runtime fatal error) or a
+                        # race-detector report (never downgraded: the detector has no false positives;
+                        # whether it fires again depends on its bounded shadow history and on
+                        # sync.Pool hand-overs inside math/big) is a violation
+                        rep = tail2 if reproduced else tail
+                        cls = "data-race" if "DATA RACE" in rep else "process-death"
                         gen = one_shot_gen(built, pid, tier, seed, cur, st.get("variant", ""), scratch, race)
-                        agg["violations"].append(dict(run=cur, **{"class": cls}, detail=tail2[-3000:], plan=gen, fatal=True))
+                        agg["violations"].append(dict(run=cur, **{"class": cls}, detail=rep[-3500:], plan=gen, fatal=True, replay_unstable=not reproduced))
                     else:
                         agg["infra"].append("worker %s died (rc=%s) on run %s but the run alone passes:\n%s" % (w["tag"], w["rc"], cur, tail[-2000:]))
                         merge(agg, stage, out2)
@@ -326,7 +354,8 @@ def check(pid, tier, seed):
                 os.makedirs(rdir, exist_ok=True)
                 h = hashlib.sha256(json.dumps(f["plan"], sort_keys=True).encode()).hexdigest()[:12]
                 path = os.path.join(rdir, "%s-%s.json" % (f["class"], h))
-                json.dump(dict(property=pid, violation_class=f["class"], detail=f["detail"], seed=seed, run=f["run"], minimised=False, race_build=race, plan=f["plan"]), open(path, "w"), indent=1)
+                json.dump(dict(property=pid, violation_class=f["class"], detail=f["detail"], seed=seed, run=f["run"], minimised=False, replay_unstable=f.get("replay_unstable", False), race_build=race, plan=f["plan"],
+                               note="race reports are replayed up to 5 times: the schedule is deterministic, the detector's bounded shadow history and pool hand-overs inside math/big are not"), open(path, "w"), indent=1)
                 log(f["detail"])
                 log("VIOLATION property=%s replay=%s" % (pid, path))
                 replays.append(path)
@@ -427,11 +456,15 @@ def replay_cmd(pid, path):
     os.makedirs(scratch)
     try:
         built = prepare(scratch, race=race)
-        w, out = one_shot(built["bin"], dict(prop=pid, mode="replay", tier="quick", seed=body.get("seed", 0), plan=body["plan"]), scratch, "replay", 3600, race=race)
+        attempts = 5 if body.get("violation_class") == "data-race" else 1
+        for attempt in range(attempts):
+            w, out = one_shot(built["bin"], dict(prop=pid, mode="replay", tier="quick", seed=body.get("seed", 0), plan=body["plan"]), scratch, "replay", 3600, race=race)
+            if out is None or w["rc"] != 0:
+                break
         if out is None or w["rc"] != 0:
             tail = open(w["log"]).read()[-5000:]
             log(tail)
-            if body.get("violation_class") in ("data-race", "process-death"):
+            if "DATA RACE" in tail or body.get("violation_class") in ("data-race", "process-death"):
                 log("VIOLATION property=%s replay=%s" % (pid, path))
                 return 1
             raise Infra("replay worker died")
@@ -458,8 +491,8 @@ def setup():
     shutil.rmtree(scratch, ignore_errors=True)
     os.makedirs(scratch)
     try:
-        prepare(scratch, race=False)
-        prepare(scratch, race=True)
+        prepare(scratch, race=False, mkconfig=False)
+        prepare(scratch, race=True, mkconfig=False)
     finally:
         shutil.rmtree(scratch, ignore_errors=True)
     log("setup ok in %.1fs" % (time.time() - t0))
